@@ -292,15 +292,29 @@ class TinyExec:
             if hasattr(base, n.attr) and (not callable(getattr(base, n.attr)) or isinstance(base, Fake)):
                 return getattr(base, n.attr)
             raise Unsupported("attribute %s" % n.attr)
-        if isinstance(n, ast.ListComp) and len(n.generators) == 1 and isinstance(n.generators[0].target, ast.Name):
+        if isinstance(n, (ast.ListComp, ast.SetComp, ast.GeneratorExp, ast.DictComp)) and len(n.generators) == 1:
             g = n.generators[0]
             out = []
             for item in self.ev(g.iter, env, so):
                 e2 = dict(env)
-                e2[g.target.id] = item
+                if isinstance(g.target, ast.Name):
+                    e2[g.target.id] = item
+                elif isinstance(g.target, ast.Tuple) and all(isinstance(e_, ast.Name) for e_ in g.target.elts):
+                    item = tuple(item)
+                    if len(item) != len(g.target.elts):
+                        raise Unsupported("comprehension target arity")
+                    for e_, v_ in zip(g.target.elts, item):
+                        e2[e_.id] = v_
+                else:
+                    raise Unsupported("comprehension target")
                 if all(self.ev(c, e2, so) for c in g.ifs):
-                    out.append(self.ev(n.elt, e2, so))
-            return out
+                    if isinstance(n, ast.DictComp):
+                        out.append((self.ev(n.key, e2, so), self.ev(n.value, e2, so)))
+                    else:
+                        out.append(self.ev(n.elt, e2, so))
+            if isinstance(n, ast.DictComp):
+                return dict(out)
+            return set(out) if isinstance(n, ast.SetComp) else out
         if isinstance(n, ast.Subscript):
             base = self.ev(n.value, env, so)
             if isinstance(base, (list, tuple, dict, str)) and not isinstance(n.slice, ast.Slice):
